@@ -43,6 +43,7 @@ def md_atoms():
         ('str', 'ctl\t\n\r\x01\x1f end'),
         ('str', 'ünï 日本語 \U0001f600'),
         ('str', ''),
+        ('str', 'line\u2028sep\u0085nel\u2029par'),
         ('int', 42),
         ('float', 1e-7),
         ('float', 0.1234567891234567),
